@@ -449,6 +449,19 @@ def site_of(filename, lineno):
     return site
 
 
+def carries_injection(err):
+    """True if err is the injected refusal or was raised while handling it
+    (re-raised / wrapped by the code under test)."""
+    seen = set()
+    while err is not None and id(err) not in seen:
+        seen.add(id(err))
+        if INJECT_MSG in str(getattr(err, "value", "")) and \
+                innermost_site(err)[0] == "injected":
+            return True
+        err = err.__cause__ or err.__context__
+    return False
+
+
 def innermost_site(err):
     """(site-id, fully-qualified-site) of the innermost traceback frame."""
     tback = err.__traceback__
@@ -799,18 +812,24 @@ def change_digest(before, after):
     added/removed/modified; the code text only if neither of those differ."""
     parts = []
     if before.get("tree") != after.get("tree"):
-        def stmts(text):
-            cnt = {}
-            for line in text.splitlines():
-                if ":" in line and line.split(":", 1)[0].isdigit():
-                    cls = line.split(":", 1)[1].split("[")[0]
-                    cnt[cls] = cnt.get(cls, 0) + 1
-            return cnt
-        cb, ca = stmts(before["tree"]), stmts(after["tree"])
-        plus = [c for c in sorted(ca) if ca[c] > cb.get(c, 0)
-                and _is_statement(c)]
-        minus = [c for c in sorted(cb) if cb[c] > ca.get(c, 0)
-                 and _is_statement(c)]
+        def top(lines):
+            """statement-level classes at the smallest depth among lines"""
+            found = []
+            for line in lines:
+                head, _, rest = line.partition(":")
+                if head.isdigit():
+                    cls = rest.split("[")[0]
+                    if _is_statement(cls):
+                        found.append((int(head), cls))
+            if not found:
+                return []
+            low = min(d for d, _ in found)
+            return sorted({c for d, c in found if d == low})
+        diff = [d for d in difflib.unified_diff(
+            before["tree"].splitlines(), after["tree"].splitlines(),
+            lineterm="", n=0)][2:]
+        plus = top([d[1:] for d in diff if d.startswith("+")])
+        minus = top([d[1:] for d in diff if d.startswith("-")])
         parts.append("tree" + ("+" + ",".join(plus) if plus else "")
                      + ("-" + ",".join(minus) if minus else ""))
     if before.get("symtab") != after.get("symtab"):
@@ -834,11 +853,13 @@ def change_digest(before, after):
             parts.append("code+comment")
         else:
             parts.append(f"code+{len(add)}-{len(rem)}")
+    other = set()
     for name in sorted(before):
         if name in ("tree", "symtab", "code"):
             continue
         if before[name] != after.get(name):
-            parts.append(name)
+            other.add(name.rstrip("0123456789"))
+    parts += sorted(other)
     return "/".join(parts) or "none"
 
 
@@ -995,9 +1016,19 @@ def enumerate_pairs(root, cap):
 # ---------------------------------------------------------------------------
 # executing one attempt
 # ---------------------------------------------------------------------------
-def make_transformation(name, ctor):
+def make_transformation(name, ctor, root=None):
+    """Instantiates the named class; a ctor value {"$symbols": [names]} is
+    resolved to the symbols of those names in the first Routine below root."""
     cls = class_by_name(name)
-    return cls(**{k: decode_value(v) for k, v in (ctor or {}).items()})
+    kwargs = {}
+    for key, val in (ctor or {}).items():
+        if isinstance(val, dict) and "$symbols" in val:
+            from psyclone.psyir.nodes import Routine
+            table = root.walk(Routine)[0].symbol_table
+            kwargs[key] = [table.lookup(n) for n in val["$symbols"]]
+        else:
+            kwargs[key] = decode_value(val)
+    return cls(**kwargs)
 
 
 def run_apply(trans, args, opt_desc, inject_at=None):
